@@ -934,6 +934,27 @@ theorem C15_skeleton_Hook_WorkerPool : skel_Hook_WorkerPool =
 theorem C15_skeleton_triggerSettings_hasWorkerPool : skel_triggerSettings_hasWorkerPool =
     ["if{", "return", "}if", "return"] := by decide
 
+/-- promise, the parameterless twin: the callback id is drawn inside the registering critical section
+(after the lock, before `Set`) — two registrations never share an id. -/
+theorem C15_skeleton_Event_OnTrigger : skel_Event_OnTrigger =
+    ["func{", "lock e.mutex", "defer unlock e.mutex", "if{", "return", "}if", "call e.callbackIDs.Next",
+      "call e.callbacks.Set", "func{", "lock e.mutex", "defer unlock e.mutex", "if{", "call e.callbacks.Delete", "}if",
+      "}func", "return", "}func", "if{", "}if", "return"] := by decide
+
+/-- `uniqueID.Next` is a plain increment: it is only safe under the event's mutex (see the two
+`OnTrigger` skeletons). -/
+theorem C15_skeleton_uniqueID_Next : skel_uniqueID_Next = ["return"] := by decide
+
+/-- The limit comparisons use the `uint64` counter and limit directly — no call of the `int`
+accessors `TriggerCount()` / `MaxTriggerCount()` (which would turn limits above MaxInt64 negative). -/
+theorem C15_skeleton_triggerSettings_MaxTriggerCountReached : skel_triggerSettings_MaxTriggerCountReached =
+    ["call t.triggerCount.Load", "return"] := by decide
+
+/-- The counter is an `atomic.Uint64`, the limit a `uint64`: the model's naturals up to 2^64. -/
+theorem C15_skeleton_type_triggerSettings : skel_type_triggerSettings =
+    ["struct", "workerPool *workerpool.WorkerPool", "triggerCount atomic.Uint64", "maxTriggerCount uint64",
+      "preTriggerFunc any"] := by decide
+
 end skeletons
 
 end Hive.C15
